@@ -184,8 +184,26 @@ def run_shard(args):
     env = dict(os.environ, TZ='Asia/Tokyo', TMPDIR=work)
     rc, out, err = sh([work + '/wtdriver', cf], timeout=timeout, env=env)
     t1 = time.time()
-    if rc != 0:
+    if rc != 0 and 'harnessError' in err:
         return {'error': 'driver rc=%d: %s' % (rc, err[-2000:]), 'impl': [], 'model': []}
+    if rc != 0:
+        # the process died (a panic in a goroutine the driver cannot recover, a fatal runtime error):
+        # run the cases one per process so that the crash becomes an observation of its case
+        out = ''
+        chunks = [c for c in re.split(r'(?m)^(?=case )', text) if c.strip()]
+        for j, chunk in enumerate(chunks):
+            cj = '%s/shard%d_%d.case' % (work, idx, j)
+            open(cj, 'w').write(chunk)
+            try:
+                rc2, o2, e2 = sh([work + '/wtdriver', cj], timeout=300, env=dict(env, WTDRIVER_FLUSH='1'))
+            except subprocess.TimeoutExpired as ex:
+                rc2, o2, e2 = -9, (ex.stdout or b'').decode() if isinstance(ex.stdout, bytes) else (ex.stdout or ''), 'timeout'
+            if 'harnessError' in e2:
+                return {'error': 'driver: %s' % e2[-2000:], 'impl': [], 'model': []}
+            if rc2 != 0:
+                why = 'timeout' if rc2 == -9 else (re.findall(r'(?m)^(panic: .*|fatal error: .*)$', e2) or ['rc=%d' % rc2])[0]
+                o2 = o2 + '< PROCESS-CRASHED %s\n' % why.replace(' ', '_')[:200]
+            out += o2
     impl = split_stream(out)
     resolved = []
     for cid, res, _obs in impl:
